@@ -14,6 +14,14 @@ Rotations == { [op |-> "rotx", a |-> a] : a \in Angles } \cup { [op |-> "roty", 
 Ops0 == Rotations \cup { [op |-> "translate", v |-> v] : v \in Vs } \cup { [op |-> "scale", v |-> v] : v \in Ss }
         \cup { [op |-> "affine", v |-> v, a |-> a, w |-> w] : v \in { PtI(<<1, 2, 3>>) }, a \in { <<Q(3, 5), Q(4, 5)>>, <<Zero, One>> }, w \in Ss }
 Ops == { o @@ [centre |-> c] : o \in Ops0, c \in Centres }
+\* further operations for the executor only (the statements below square coordinates, which overflows 32 bits at these denominators; zero factors have no inverse):
+\* very small turns, and scalings that flatten the tree onto a plane or a line
+CoordAxes == { <<One, Zero, Zero>>, <<Zero, R(-1), Zero>>, <<Zero, Zero, One>> }
+OpsX0 == { [op |-> "rotx", a |-> a] : a \in SmallAngles } \cup { [op |-> "roty", a |-> a] : a \in SmallAngles } \cup { [op |-> "rotz", a |-> a] : a \in SmallAngles }
+         \cup { [op |-> "rotate", n |-> n, a |-> a] : n \in CoordAxes \cup { <<Q(2, 3), Q(2, 3), Q(1, 3)>> }, a \in SmallAngles }
+         \cup { [op |-> "scale", v |-> v] : v \in { PtI(<<2, 0, 2>>), PtI(<<1, 1, 0>>), PtI(<<0, 3, 1>>), <<Q(1, 2), Zero, Zero>> } }
+OpsX == { o @@ [centre |-> c] : o \in OpsX0, c \in Centres }
+HasInverse(o) == o.op # "affine" /\ (o.op = "scale" => \A i \in 1 .. 3 : o.v[i][1] # 0)
 
 \* the chosen centre stays fixed under scaling and rotation
 ASSUME \A o \in { x \in Ops : x.op # "translate" /\ x.op # "affine" } : \A c \in Pts : Apply(Eff(o, c), IF o.centre = "root" THEN c ELSE PtI(<<0, 0, 0>>)) = (IF o.centre = "root" THEN c ELSE PtI(<<0, 0, 0>>))
@@ -36,11 +44,11 @@ TreeB == << <<-4, 0, 6>>, <<0, 0, 0>>, <<-4, 9, 6>> >>
 TreeC == << <<0, 0, 0>>, <<1, 0, 0>>, <<0, 1, 0>>, <<0, 0, 1>> >>
 TreeSets == { <<TreeA>>, <<TreeB, TreeA>>, <<TreeC, TreeB>> }
 Img(o, tr) == [k \in 1 .. Len(tr) |-> Apply(Eff(o, PtI(tr[1])), PtI(tr[k]))]
-ApplyCases == { [kind |-> "apply", o |-> o, trees |-> ts, exp |-> [j \in 1 .. Len(ts) |-> Img(o, ts[j])]] : o \in Ops, ts \in TreeSets }
-InvCases   == { [kind |-> "inverse", o |-> o, oi |-> Inv(o), trees |-> <<TreeA>>, exp |-> << [k \in 1 .. Len(TreeA) |-> PtI(TreeA[k])] >>] : o \in { x \in Ops : x.op # "affine" } }
+ApplyCases == { [kind |-> "apply", o |-> o, trees |-> ts, exp |-> [j \in 1 .. Len(ts) |-> Img(o, ts[j])]] : o \in Ops \cup OpsX, ts \in TreeSets }
+InvCases   == { [kind |-> "inverse", o |-> o, oi |-> Inv(o), trees |-> <<TreeA>>, exp |-> << [k \in 1 .. Len(TreeA) |-> PtI(TreeA[k])] >>] : o \in { x \in Ops \cup OpsX : HasInverse(x) } }
 OrgCases   == { [kind |-> "apply", o |-> [op |-> "translate_origin", centre |-> "origin"], trees |-> ts,
                  exp |-> [j \in 1 .. Len(ts) |-> Img([op |-> "translate_origin", centre |-> "origin"], ts[j])]] : ts \in TreeSets }
-MatCases   == { [kind |-> "matrix", o |-> o, trees |-> <<>>, exp |-> <<>>, m |-> Mat(o)] : o \in { x \in Ops : x.centre = "origin" /\ x.op # "affine" } }
+MatCases   == { [kind |-> "matrix", o |-> o, trees |-> <<>>, exp |-> <<>>, m |-> Mat(o)] : o \in { x \in Ops \cup OpsX : x.centre = "origin" /\ x.op # "affine" } }
 AllSeq == SetToSeq(ApplyCases \cup InvCases \cup OrgCases \cup MatCases)
 Numbered == [j \in 1 .. Len(AllSeq) |-> [cid |-> j, wind |-> (j % 3) - 1] @@ AllSeq[j]]
 VARIABLE done
